@@ -1,6 +1,7 @@
 // libFuzzer target for C31: mj_loadModelBuffer on arbitrary bytes (seeded with valid MJB files).
-// Oracle: no sanitizer report; no mju_error (the documented contract is warning + NULL); an accepted model must survive
-// mj_makeData (and mj_forward for small models), and re-saving it must produce exactly mj_sizeModel bytes.
+// Oracle (load stage only): no sanitizer report; no mju_error (the documented contract is warning + NULL); an accepted
+// model has mj_sizeModel == input length and can be re-saved into an exact-size block.  What an accepted model does
+// in mj_makeData / mj_forward is judged by the in-process part of checks/c31.py (with the reference checker), not here.
 #include <mujoco/mujoco.h>
 
 #include <csetjmp>
@@ -59,12 +60,11 @@ extern "C" int LLVMFuzzerTestOneInput(const uint8_t* data, size_t size) {
         fprintf(stderr, "VF-ORACLE: accepted %zu-byte file but mj_sizeModel says %lld\n", size, (long long)sz);
         abort();
       }
-      d = mj_makeData(m);
+      // re-save: the writer must stay inside an exact-size block and reproduce the accepted bytes' length
+      uint8_t* out = (uint8_t*)malloc((size_t)sz);
+      mj_saveModel(m, nullptr, out, (int)sz);
+      free(out);
       g_stage = 2;
-      if (d && m->nbody < 300 && m->nv < 600 && m->nmeshvert < 20000 && m->opt.iterations < 1000 &&
-          m->opt.ls_iterations < 1000 && m->opt.noslip_iterations < 1000 && m->opt.ccd_iterations < 1000) {
-        mj_forward(m, d);
-      }
     }
   } else {
     g_active = 0;
